@@ -48,6 +48,7 @@ type kvsLock struct {
 	future  atomic.Value     // timeout.Future
 	lckCntr int32
 	waiters int32
+	tenure  int32 // incremented on every acquisition, identifies the tenure a renewal timer belongs to
 }
 
 // LockProvider helper interface to indicate that the object has
@@ -111,7 +112,8 @@ func (l *kvsLock) TryLock(ctx context.Context) bool {
 		Value:     cast.StringToByteArray(""),
 		ExpiresAt: cast.Ptr(time.Now().Add(l.dlp.leaseTTL)),
 	}); err == nil {
-		l.future.Store(timeout.Call(func() { l.supportTimeout(ver) }, l.dlp.leaseTTL/2))
+		tenure := atomic.AddInt32(&l.tenure, 1)
+		l.future.Store(timeout.Call(func() { l.supportTimeout(tenure, ver) }, l.dlp.leaseTTL/2))
 		return true
 	}
 	atomic.StoreInt32(&l.lckCntr, 0)
@@ -174,7 +176,8 @@ func (l *kvsLock) lockWithCtx(ctx context.Context) error {
 			ExpiresAt: cast.Ptr(time.Now().Add(l.dlp.leaseTTL)),
 		})
 		if err == nil {
-			l.future.Store(timeout.Call(func() { l.supportTimeout(ver) }, l.dlp.leaseTTL/2))
+			tenure := atomic.AddInt32(&l.tenure, 1)
+			l.future.Store(timeout.Call(func() { l.supportTimeout(tenure, ver) }, l.dlp.leaseTTL/2))
 			return nil
 		}
 
@@ -193,7 +196,11 @@ func (l *kvsLock) lockWithCtx(ctx context.Context) error {
 // the function is tricky, cause it uses CAS operation to update the record version and if the version
 // is updated, it recharges the timeout. This is where the new raise can happen and the new future may
 // overwrite the future flag stored in the atomic.
-func (l *kvsLock) supportTimeout(ver string) {
+func (l *kvsLock) supportTimeout(tenure int32, ver string) {
+	if atomic.LoadInt32(&l.tenure) != tenure || !l.isLocked() {
+		// the tenure this renewal was armed for is over (unlocked, maybe locked again): nothing to renew
+		return
+	}
 	future := l.future.Load().(timeout.Future)
 	r, err := l.dlp.Storage.CasByVersion(context.Background(), kvs.Record{
 		Key:       l.key,
@@ -201,11 +208,11 @@ func (l *kvsLock) supportTimeout(ver string) {
 		Version:   ver,
 		ExpiresAt: cast.Ptr(time.Now().Add(l.dlp.leaseTTL)),
 	})
-	if err != nil && !errors.Is(err, errors.ErrNotExist) && !errors.Is(err, errors.ErrConflict) && l.isLocked() {
+	if err != nil && !errors.Is(err, errors.ErrNotExist) && !errors.Is(err, errors.ErrConflict) && l.isLocked() && atomic.LoadInt32(&l.tenure) == tenure {
 		// the storage did not answer this time, but the lock is still held: try again with the same
 		// version while the lease is still valid, otherwise it would lapse under the live holder
 		l.dlp.logger.Warnf("supportTimeout could not renew the lease for the key=%s, will retry, err=%s", l.key, err)
-		retryFuture := timeout.Call(func() { l.supportTimeout(ver) }, l.dlp.leaseTTL/8)
+		retryFuture := timeout.Call(func() { l.supportTimeout(tenure, ver) }, l.dlp.leaseTTL/8)
 		if !l.future.CompareAndSwap(future, retryFuture) {
 			retryFuture.Cancel()
 		}
@@ -215,7 +222,7 @@ func (l *kvsLock) supportTimeout(ver string) {
 		l.dlp.logger.Debugf("supportTimeout raise detected, just do nothing for the key=%s, err=%s", l.key, err)
 		return
 	}
-	newFuture := timeout.Call(func() { l.supportTimeout(r.Version) }, l.dlp.leaseTTL/2)
+	newFuture := timeout.Call(func() { l.supportTimeout(tenure, r.Version) }, l.dlp.leaseTTL/2)
 	if !l.future.CompareAndSwap(future, newFuture) {
 		// somebody already started the new timer, so drop this and forget about the incident
 		l.dlp.logger.Debugf("supportTimeout raise 2 detected, just cancelling the call timeout")
